@@ -1,9 +1,13 @@
 ------------------------------ MODULE BpchLayout_MC ------------------------------
 EXTENDS BpchLayout, Json, IOUtils
-T1(nl) == [cat |-> <<"I","J","-","A","V","G","-","$">>, id |-> 1, unit |-> <<"p","p","b","v">>, nl |-> nl, name |-> <<"N","O","x">>, scale2 |-> 1, off |-> 0]
-T2(nl) == [cat |-> <<"I","J","-","A","V","G","-","$">>, id |-> 2, unit |-> <<"p","p","b","v">>, nl |-> nl, name |-> <<"O","x">>, scale2 |-> 0, off |-> 0]
-T3(nl) == [cat |-> <<"A","N","T","H","S","R","C","E">>, id |-> 1, unit |-> <<"k","g">>, nl |-> nl, name |-> <<"N","O","x","a","n">>, scale2 |-> -1, off |-> 100]
-TracerLists == { <<T1(3)>>, <<T1(2), T2(1)>>, <<T2(1), T1(3)>>, <<T1(3), T2(2), T3(1)>>, <<T3(1), T1(1)>>, <<T1(1), T3(2), T2(3)>> }
+T1(nl) == [cat |-> <<"I","J","-","A","V","G","-","$">>, id |-> 1, unit |-> <<"p","p","b","v">>, nl |-> nl, name |-> <<"N","O","x">>, scale2 |-> 1, off |-> 0, intab |-> TRUE]
+T2(nl) == [cat |-> <<"I","J","-","A","V","G","-","$">>, id |-> 2, unit |-> <<"p","p","b","v">>, nl |-> nl, name |-> <<"O","x">>, scale2 |-> 0, off |-> 0, intab |-> TRUE]
+T3(nl) == [cat |-> <<"A","N","T","H","S","R","C","E">>, id |-> 1, unit |-> <<"k","g">>, nl |-> nl, name |-> <<"N","O","x","a","n">>, scale2 |-> -1, off |-> 100, intab |-> TRUE]
+\* a diagnostic of tracer 1 in a category whose offset + id has no line in the
+\* tracer table (adjoint-like): the name is the bare tracer's, the data are not scaled
+T4(nl) == [cat |-> <<"I","J","-","A","D","J","-","$">>, id |-> 1, unit |-> <<"u","n","i","t","l","e","s","s">>, nl |-> nl, name |-> <<"N","O","x">>, scale2 |-> 0, off |-> 1000, intab |-> FALSE]
+TracerLists == { <<T1(3)>>, <<T1(2), T2(1)>>, <<T2(1), T1(3)>>, <<T1(3), T2(2), T3(1)>>, <<T3(1), T1(1)>>, <<T1(1), T3(2), T2(3)>>,
+                 <<T1(2), T4(2)>>, <<T4(1), T2(1), T1(3)>> }
 Configs == { [tr |-> tl, ni |-> g[1], nj |-> g[2], i0 |-> o, j0 |-> o, nt |-> nt, tau |-> 140256] :
               tl \in TracerLists, g \in { <<1, 1>>, <<2, 1>>, <<2, 3>>, <<3, 2>> }, o \in {1, 3}, nt \in 1..3 }
 \* c: configuration; n: cut offset (walked only when PNC_BPCH_CUTS = 1); z: cached sizes
